@@ -79,7 +79,19 @@ func (ex *Exec) intercept(st *State, th *Thread, f *Frame, fn *ssa.Function, arg
 			ex.checkAssert(st, f, cond, msg)
 			return ret(nil)
 		case "verifReach":
-			st.reached = append(st.reached, strArg(args[0]))
+			tag := strArg(args[0])
+			st.reached = append(st.reached, tag)
+			if !ex.reachSeen[tag] {
+				// vacuity witness: the reach point counts only if the path is feasible here
+				ex.sol.Purpose = "reachability witness " + tag
+				if ex.pathFeasible(st) {
+					if ex.reachSeen == nil {
+						ex.reachSeen = map[string]bool{}
+					}
+					ex.reachSeen[tag] = true
+					ex.rep.Reached[tag]++
+				}
+			}
 			return ret(nil)
 		case "verifNote":
 			st.notes = append(st.notes, strArg(args[0]))
@@ -91,6 +103,8 @@ func (ex *Exec) intercept(st *State, th *Thread, f *Frame, fn *ssa.Function, arg
 			return ret(BoolC(ok && t.Op != OConst))
 		case "verifNoMerge":
 			return ret(nil)
+		case "verifNative":
+			return ret(FalseT)
 		case "verifQuick":
 			return ret(BoolC(ex.cfg.Tier != "thorough"))
 		case "verifSeed":
